@@ -3,7 +3,9 @@
 (* Case generator for C13.  TLC enumerates the edit/build histories of     *)
 (* length MaxLen over the inputs of the 3-package module in a canonical    *)
 (* form (one representative per class of histories that cannot differ in   *)
-(* what they show) and prints each history with, for every build in it,    *)
+(* what they show) and prints each one.  The driver maps the class        *)
+(* representatives to concrete inputs, and BuildReplay then computes for   *)
+(* every build of every selected history                                   *)
 (*   val   - the value of every input at that build: what BuildCache       *)
 (*           (Fresh) demands the executable to reflect, and                *)
 (*   stale - the <<package, input>> pairs layer B (the manifest model of   *)
@@ -82,7 +84,11 @@ CasesSpec == CasesInit /\ [][CasesNext]_cvars
 Complete == Len(hist) = MaxLen /\ LastIsBuild
 
 Emit == Complete =>
-  PrintT(ToJson([h |-> [n \in 1..Len(hist) |-> hist[n].a \o ":" \o hist[n].i], obs |-> obs]))
+  PrintT(ToJson([h |-> [n \in 1..Len(hist) |-> hist[n].a \o ":" \o hist[n].i]]))
+
+\* the shape of the module, for the driver (printed once)
+ASSUME PrintT(ToJson([meta |-> [reads |-> M3Reads, classes |-> Classes, files |-> M3Files, xs |-> M3Xs,
+                                globals |-> M3Globals, order |-> Order]]))
 
 \* the law is consistent with itself whatever the key: what layer B calls stale is what Fresh forbids
 StaleIsNotFresh == LastIsBuild => ((obs[Len(obs)].stale = {}) <=> (\A p \in Pkgs : exe[p] = Out(p)))
